@@ -316,6 +316,10 @@ impl Property for C08 {
         let fails: Vec<u64> = (0..cfg_rng.below(3)).map(|_| cfg_rng.below(6) as u64).collect();
         case.cfg.insert("flaky_fail_at".into(), json!(fails));
         case.ops = ops;
+        if cfg_rng.chance(1, 2) {
+            // size-dependent engine paths forced or forbidden on small databases
+            draw_knobs(&mut case, &mut cfg_rng);
+        }
         case
     }
     fn check(&self, case: &Case) -> CaseResult {
